@@ -559,7 +559,7 @@ pub fn run(tier: &str) -> i32 {
     let b = bfs(&g, 3, 60_000);
     let mut progs: Vec<File> = vec![];
     let all: Vec<File> = b.levels.iter().flatten().cloned().collect();
-    let want_n = if thorough { 1500 } else { 60 };
+    let want_n = if thorough { 5000 } else { 60 };
     let step = (all.len() / want_n).max(1);
     progs.extend(all.iter().step_by(step).cloned());
     progs.extend(crate::c09::extra_pool());
@@ -569,7 +569,7 @@ pub fn run(tier: &str) -> i32 {
     sk.when = Some(vec![vec![un(vec![key("zz")], UnOp::Exists, false)]]);
     progs.push(File { lets: vec![], rules: vec![rule("rp", vec![vec![un(vec![key("zz")], UnOp::Exists, true)]]), rule("rf", vec![vec![un(vec![key("zz")], UnOp::Exists, false)]]), sk.clone(), rule("rq", vec![vec![lp[0].clone()], vec![lp[9].clone()]])], default: vec![] });
     let progs: Vec<File> = progs.iter().map(|f| tag_messages(f, "")).collect();
-    let mut docs: Vec<V> = docs_quick().into_iter().step_by(if thorough { 3 } else { 7 }).collect();
+    let mut docs: Vec<V> = docs_quick().into_iter().step_by(if thorough { 2 } else { 7 }).collect();
     docs.push(m(vec![("a", l(vec![m(vec![("a", i(1)), ("b", i(1))]), m(vec![("b", i(2))])])), ("b", i(1))]));
     let djs: Vec<String> = docs.iter().map(|d| d.json()).collect();
     let cfgs = configs();
